@@ -2,6 +2,7 @@ package main
 
 import (
 	"flag"
+	"os"
 
 	"verifharness/plyfam"
 )
@@ -13,8 +14,10 @@ func init() {
 		out := fs.String("out", "", "trace ndjson")
 		dump := fs.String("dump", "", "optional directory receiving every byte string given to the reader")
 		skip := fs.Int("skip", 0, "cases already executed (continuation after a timeout)")
+		timeouts := fs.Int("timeouts", 0, "cases that hit the deadline so far (continuation)")
 		_ = fs.Parse(args)
-		return plyfam.RunCases(*in, *out, *dump, *skip)
+		_ = os.Remove(*out + ".aborted")
+		return plyfam.RunCases(*in, *out, *dump, *skip, *timeouts)
 	}
 	commands["ply-random"] = func(args []string) error {
 		fs := flag.NewFlagSet("ply-random", flag.ExitOnError)
